@@ -312,6 +312,16 @@ func c13(c *hx.Ctx) {
 			a.p = privIn{kind: 1, key: &keyT{atom: i % len(keys)}}
 		}
 		b := mutate(a)
+		if !sameInput(a, b) {
+			// outputs of 1..7 bytes for DIFFERENT inputs coincide by chance (2^-8n): the
+			// equality pattern is only meaningful from 8 bytes on; short lengths stay for equal inputs
+			if a.n > 0 && a.n < 8 {
+				a.n = 8
+			}
+			if b.n > 0 && b.n < 8 {
+				b.n = 8
+			}
+		}
 		ra, rb := derive(a.ctx, a.salt, a.p, a.n), derive(b.ctx, b.salt, b.p, b.n)
 		r := rel(ra, rb)
 		desc := map[string]any{"kind": "DeriveKey x2",
